@@ -1,6 +1,162 @@
-/-! Driver commands of the `Tc` cluster.  `handle` returns `none` for commands that are not its own. -/
-namespace Driver.Tc
+import TbotVerif.Spec.Tc
+/-! Driver commands of the `Tc` cluster (C16).  `handle` returns `none` for commands that are not
+    its own.
 
-def handle (_toks : List String) : Option String := none
+    Case:  `<mode> <nest0> <node>*`, mode `ip|newbot|tbot`, nodes in pre-order, each
+           `<guard><form><id>:<fin>:<number of children>` with guard `n|e|a`
+           (none / `except Exception` / `except BaseException`), form `d|m|w`
+           (decorator / named decorator / with-block), fin `p|x|s|k`
+           (pass / Exception / SkipException / KeyboardInterrupt).
+    Obs:   `<final> <nest> <item>*`, final `esc:-|x|s|k` or `exit:<n>`, items
+           `B:<name>` `E:<name>:<success>:<skipped>` `I:<name>:<nest>` `Y:<name>:<how>`
+           `R:<name>:<v<n>|none|unit|x|s|k>` `X:<exc>` `T:<success>`; a name is `<form><id>`. -/
+namespace Driver.Tc
+open _root_.Tc
+
+def form? : Char → Option Form
+  | 'd' => some .dec | 'm' => some .named | 'w' => some .ctx | _ => none
+
+def formC : Form → String
+  | .dec => "d" | .named => "m" | .ctx => "w"
+
+def guard? : Char → Option Catch
+  | 'n' => some .no | 'e' => some .exc | 'a' => some .all | _ => none
+
+def exc? : String → Option Exc
+  | "x" => some .err | "s" => some .skip | "k" => some .kbd | _ => none
+
+def excS : Exc → String
+  | .err => "x" | .skip => "s" | .kbd => "k"
+
+def how? (s : String) : Option How :=
+  if s == "-" then some none else (exc? s).map some
+
+def howS : How → String
+  | none => "-" | some e => excS e
+
+def fin? (s : String) : Option How :=
+  if s == "p" then some none else (exc? s).map some
+
+def bool? (s : String) : Option Bool :=
+  if s == "1" then some true else if s == "0" then some false else none
+
+def boolS (b : Bool) : String := if b then "1" else "0"
+
+/-- decimal digits only (no sign, no blanks, not empty) -/
+def nat? (s : String) : Option Nat :=
+  if s.toList.all Char.isDigit then s.toNat? else none
+
+def int? (s : String) : Option Int :=
+  match s.toList with
+  | '-' :: cs => (nat? (String.ofList cs)).map (fun n => -(n : Int))
+  | _ => (nat? s).map (fun n => (n : Int))
+
+def name? (s : String) : Option Name :=
+  match s.toList with
+  | f :: cs => do pure ⟨← form? f, ← nat? (String.ofList cs)⟩
+  | [] => none
+
+def nameS (n : Name) : String := formC n.form ++ toString n.id
+
+def ret? (s : String) : Option Ret :=
+  match s.toList with
+  | 'v' :: cs => (nat? (String.ofList cs)).map .val
+  | _ => if s == "none" then some .none else if s == "unit" then some .unit else (exc? s).map .exc
+
+def retS : Ret → String
+  | .val v => "v" ++ toString v | .none => "none" | .unit => "unit" | .exc e => excS e
+
+/-- head of a node: guard, form, id, fin, number of children -/
+def head? (t : String) : Option (Catch × Form × Nat × How × Nat) :=
+  match t.splitOn ":" with
+  | [a, f, k] =>
+    match a.toList with
+    | g :: fm :: cs => do
+      pure (← guard? g, ← form? fm, ← nat? (String.ofList cs), ← fin? f, ← nat? k)
+    | _ => none
+  | _ => none
+
+/-- `n` nodes in pre-order from the front of the token list -/
+def nodes? : Nat → Nat → List String → Option (List Node × List String)
+  | _, 0, toks => some ([], toks)
+  | 0, _ + 1, _ => none
+  | _ + 1, _ + 1, [] => none
+  | fuel + 1, n + 1, t :: toks => do
+    let (g, f, id, fin, k) ← head? t
+    let (kids, rest) ← nodes? fuel k toks
+    let (sibs, rest2) ← nodes? fuel n rest
+    pure (.mk f id g kids fin :: sibs, rest2)
+
+/-- all tokens as a forest -/
+def forest? : Nat → List String → Option (List Node)
+  | _, [] => some []
+  | 0, _ :: _ => none
+  | fuel + 1, toks => do
+    let (one, rest) ← nodes? (toks.length + 1) 1 toks
+    if rest.length < toks.length then pure (one ++ (← forest? fuel rest)) else none
+
+def mode? : String → Option Mode
+  | "ip" => some .ip | "newbot" => some .newbot | "tbot" => some .legacy | _ => none
+
+def case? (toks : List String) : Option Case :=
+  match toks with
+  | m :: n0 :: rest => do
+    let c : Case := { mode := ← mode? m, nest0 := ← nat? n0, roots := ← forest? (rest.length + 1) rest }
+    if c.wellformed then pure c else none
+  | _ => none
+
+def item? (t : String) : Option Item :=
+  match t.splitOn ":" with
+  | ["B", n] => (name? n).map .begin
+  | ["E", n, a, b] => do pure (.end_ (← name? n) (← bool? a) (← bool? b))
+  | ["I", n, d] => do pure (.enter (← name? n) (← int? d))
+  | ["Y", n, h] => do pure (.body (← name? n) (← how? h))
+  | ["R", n, r] => do pure (.ret (← name? n) (← ret? r))
+  | ["X", e] => (exc? e).map .excev
+  | ["T", b] => (bool? b).map .tbotEnd
+  | _ => none
+
+def itemS : Item → String
+  | .begin n => "B:" ++ nameS n
+  | .end_ n a b => "E:" ++ nameS n ++ ":" ++ boolS a ++ ":" ++ boolS b
+  | .enter n d => "I:" ++ nameS n ++ ":" ++ toString d
+  | .body n h => "Y:" ++ nameS n ++ ":" ++ howS h
+  | .ret n r => "R:" ++ nameS n ++ ":" ++ retS r
+  | .excev e => "X:" ++ excS e
+  | .tbotEnd b => "T:" ++ boolS b
+
+def final? (t : String) : Option Final :=
+  match t.splitOn ":" with
+  | ["esc", h] => (how? h).map .escaped
+  | ["exit", n] => (nat? n).map .exit
+  | _ => none
+
+def finalS : Final → String
+  | .escaped h => "esc:" ++ howS h
+  | .exit n => "exit:" ++ toString n
+
+def obs? (toks : List String) : Option Obs :=
+  match toks with
+  | f :: n :: items => do pure ⟨← items.mapM item?, ← final? f, ← int? n⟩
+  | _ => none
+
+def obsS (o : Obs) : String :=
+  " ".intercalate (finalS o.fin :: toString o.nest :: o.items.map itemS)
+
+def splitAt2 (toks : List String) (sep : String) : List String × List String :=
+  (toks.takeWhile (· != sep), (toks.dropWhile (· != sep)).drop 1)
+
+def handle (toks : List String) : Option String :=
+  match toks with
+  | "tc" :: rest =>
+    some (match case? rest with
+    | some c => obsS (run c)
+    | none => "bad-op")
+  | "spec" :: "C16" :: rest =>
+    let (ct, ot) := splitAt2 rest "||"
+    some (match case? ct, obs? ot with
+    | some c, some o => if Spec.C16 c o then "1" else "0"
+    | _, _ => "bad-op")
+  | _ => none
 
 end Driver.Tc
